@@ -58,6 +58,7 @@ from spyne.util.cdict import cdict
 
 _date_re = re.compile(DATE_PATTERN)
 _time_re = re.compile(TIME_PATTERN)
+_time_offset_re = re.compile(r'(?P<tz_hr>[+-]\d{2}):(?P<tz_min>\d{2})$')
 _duration_re = re.compile(
         r'(?P<sign>-?)'
         r'P'
@@ -415,9 +416,27 @@ class InProtocolBase(ProtocolMixin):
         else:
             microsec = min(999999, int(round(float(microsec) * 1e6)))
 
+        # what follows the time is its zone: nothing, Z or +hh:mm / -hh:mm
+        tzinfo = None
+        rest = string[match.end():]
+        if rest == 'Z':
+            tzinfo = pytz.utc
+        elif rest != '':
+            tz_match = _time_offset_re.match(rest)
+            if tz_match is None:
+                raise ValidationError(string, "%%r does not match regex %r " %
+                                                               _time_re.pattern)
+            tz_min = int(tz_match.group('tz_hr')[1:]) * 60 \
+                                                + int(tz_match.group('tz_min'))
+            if tz_match.group('tz_hr').startswith('-'):
+                tz_min = -tz_min
+
         try:
+            if rest not in ('', 'Z'):
+                tzinfo = FixedOffset(tz_min)
+
             return time(int(fields['hr']), int(fields['min']),
-                                                   int(fields['sec']), microsec)
+                                           int(fields['sec']), microsec, tzinfo)
         except ValueError as e:
             # the regex lets e.g. 25:61:61 through
             raise ValidationError(string, "%%r: %s" % e)
